@@ -41,6 +41,8 @@ def worker(k, todo, res, lock):
         viol = [l for l in o.splitlines() if l.startswith('VIOLATION')]
         with lock:
             res[name] = {'applies': True, 'exit': rc, 'violations': len(viol), 'caught': rc == 1 and len(viol) > 0, 'seconds': round(time.time() - t0, 1)}
+            if rc != 0 and not viol:
+                res[name]['output_tail'] = o[-1500:]
         print(name, res[name], flush=True)
     sh('git -C /repo worktree remove --force %s' % wt)
     shutil.rmtree(out, ignore_errors=True)
